@@ -1,4 +1,5 @@
 import HsVerif.Proofs.Cert
+import HsVerif.Proofs.CertComplete
 /-! C02 — accepted certificates carry a quorum of distinct valid signatures.  Property theorems only.
 (Soundness for arbitrary wire-shaped certificate values, i.e. including every structural mutation.) -/
 set_option linter.unusedVariables false
@@ -126,6 +127,37 @@ theorem verifyAnyQC_sound (E : CertEnv) (agg : Bool) (qc : QC) (a : Option AggQC
   · split at h
     · assumption
     · simp at h
+
+/-! Completeness (n ≥ 2): what `CreateQuorumCert` / `CreateTimeoutCert` assemble from the `Sign`
+outputs of a quorum of distinct configured replicas verifies at every replica with the same
+configuration and store.  (`f i` is the signature contributed by signer `i`.)
+
+The corresponding statement for `CreateAggregateQC` (BatchVerify completeness) is not proved in
+Lean; it is exercised by the correspondence (`create-agg` followed by `verify-agg`, judged by
+the oracle) only. -/
+
+theorem create_verify_QC (E : CertEnv) (b : Block) (signers : List Nat) (f : Nat → Sig)
+    (hb : E.get b.hash = some b) (hg : b.hash ≠ genesisHash)
+    (hn : signers.Nodup) (hh : ∀ i ∈ signers, E.cfg.has i = true) (h2 : 2 ≤ signers.length)
+    (hq : E.cfg.quorum ≤ signers.length)
+    (hs : ∀ i ∈ signers, HonestSig E.T E.cfg i (blkMsg b.hash) (f i)) :
+    ∃ s, combine E.cfg (signers.map f) = .ok s ∧ verifyQC E ⟨some s, b.view, b.hash⟩ = true := by
+  obtain ⟨s, h1, h2', h3, _⟩ := combine_honest_verifies E.T E.cfg (blkMsg b.hash) signers f hn hh h2 hs
+  refine ⟨s, h1, ?_⟩
+  unfold verifyQC
+  have hlt : ¬ s.len < E.cfg.quorum := by omega
+  simp [hg, hlt, hb, h2']
+
+theorem create_verify_TC (E : CertEnv) (view : Nat) (signers : List Nat) (f : Nat → Sig)
+    (hn : signers.Nodup) (hh : ∀ i ∈ signers, E.cfg.has i = true) (h2 : 2 ≤ signers.length)
+    (hq : E.cfg.quorum ≤ signers.length)
+    (hs : ∀ i ∈ signers, HonestSig E.T E.cfg i (viewMsg view) (f i)) :
+    ∃ s, combine E.cfg (signers.map f) = .ok s ∧ verifyTC E ⟨some s, view⟩ = true := by
+  obtain ⟨s, h1, h2', h3, _⟩ := combine_honest_verifies E.T E.cfg (viewMsg view) signers f hn hh h2 hs
+  refine ⟨s, h1, ?_⟩
+  unfold verifyTC
+  have hlt : ¬ s.len < E.cfg.quorum := by omega
+  simp [hlt, h2']
 
 /-! Mutations listed in the property, as corollaries / concrete instances. -/
 
